@@ -91,7 +91,8 @@ def run_d(crate, harness_specs, tier, seed, result):
             t = hs.get(tier) or hs.get("quick")
             if t is None:
                 continue
-            out = binary + f".{hs['name']}.json"
+            hid = hs.get("id", hs["name"])
+            out = binary + f".{hid}.json"
             cmd = [binary, hs["name"], "--threads", str(t.get("threads", NCPU)), "--max-paths", str(t.get("max_paths", 100000)),
                    "--seed", str(seed), "--split-depth", str(t.get("split_depth", 3)), "--out", out,
                    "--crosscheck-every", str(t.get("crosscheck_every", 211))]
@@ -119,7 +120,8 @@ def run_d(crate, harness_specs, tier, seed, result):
 
 
 def absorb_d(rep, hs, crate, result, wall, features):
-    name = hs["name"]
+    name = hs.get("id", hs["name"])
+    rep["harness"] = hs["name"]
     result["paths"] += rep["paths"]
     result["queries"] += rep["solver_queries"]
     result["solver_s"] += rep["solver_time_s"]
@@ -142,7 +144,9 @@ def absorb_d(rep, hs, crate, result, wall, features):
             result["inconclusive"].append(f"{name}: vacuity witness '{c}' was never reached")
     for v in rep["violations"]:
         v = dict(v)
-        v["harness"] = name
+        v["harness"] = hs["name"]
+        v["variant"] = name
+        v["env"] = (hs.get(result.get("tier", "quick")) or hs.get("quick") or {}).get("env", {})
         v["crate"] = crate
         v["features"] = features
         result["violations"].append(v)
@@ -172,6 +176,7 @@ def new_result():
 
 def run_property(pid, spec, tier, seed):
     result = new_result()
+    result["tier"] = tier
     for part in spec["parts"]:
         if part["engine"] == "D":
             result["engines"].append(f"D:{part['crate']}")
@@ -200,7 +205,10 @@ def replay(pid, path):
         os.close(fd)
         with open(tmp, "w") as f:
             json.dump({"harness": v["harness"], "violations": [v]}, f)
-        p = subprocess.run([binary, "--replay", tmp, "0"], capture_output=True, text=True)
+        env = dict(os.environ)
+        for k, val in v.get("env", {}).items():
+            env[k] = str(val)
+        p = subprocess.run([binary, "--replay", tmp, "0"], capture_output=True, text=True, env=env)
         os.unlink(tmp)
         print(p.stdout.strip())
         if p.returncode == 1:
